@@ -127,6 +127,31 @@ pub(crate) mod b {
                             ok = false;
                             why = format!("{} nodes in the forest, {} rendered ({} rect, {} circle, {} text)", count_nodes(&trees), rendered.len(), tags("rect"), tags("circle"), tags("text"));
                         }
+                        // ... and carries the names its tree node collected in its class attribute (pre-order = rendering order)
+                        fn preorder<'a>(trees: &'a [FragmentTree], out: &mut Vec<&'a FragmentTree>) {
+                            for t in trees {
+                                out.push(t);
+                                preorder(&t.enclosing, out);
+                            }
+                        }
+                        let mut order = vec![];
+                        preorder(&trees, &mut order);
+                        for (t, node) in order.iter().zip(rendered.iter()) {
+                            let mut class_tokens: Vec<String> = vec![];
+                            if let Some(vals) = node.attribute_value(&"class") {
+                                for v in vals {
+                                    if let Some(val) = v.get_simple() {
+                                        class_tokens.extend(val.to_string().split_whitespace().map(|s| s.to_string()));
+                                    }
+                                }
+                            }
+                            let missing = t.css_tag.iter().any(|name| !class_tokens.contains(name));
+                            let stray = t.css_tag.is_empty() && want_names.iter().any(|name| class_tokens.iter().any(|c| c == name));
+                            if missing || stray {
+                                ok = false;
+                                why = format!("node {:?} collected the names {:?} but is rendered with class {:?}", key(&t.fragment.fragment), t.css_tag, class_tokens);
+                            }
+                        }
                         if !ok {
                             println!("BOUNDED-WITNESS tag {:?} placed in {} (order {:?}, text_first {}): {}", content, place, order, text_first, why);
                             panic!("tags style the innermost enclosing shape");
